@@ -51,8 +51,12 @@ func (v *variable[Type]) Compute(computeFunc func(currentValue Type) Type) (prev
 
 	newValue, previousValue, updateID, registeredCallbacks := v.updateValue(computeFunc)
 
+	verifYield("variable-after-update")
+
 	for _, registeredCallback := range registeredCallbacks {
 		if registeredCallback.LockExecution(updateID) {
+			verifYield("variable-before-invoke")
+
 			registeredCallback.Invoke(previousValue, newValue)
 			registeredCallback.UnlockExecution()
 		}
@@ -194,6 +198,8 @@ func (r *readableVariable[Type]) OnUpdate(callback func(prevValue, newValue Type
 	defer createdCallback.UnlockExecution()
 
 	r.valueMutex.Unlock()
+
+	verifYield("variable-onupdate-registered")
 
 	var emptyValue Type
 	if currentValue != emptyValue || lo.First(triggerWithInitialZeroValue) {
